@@ -505,7 +505,7 @@ func (e *unitsEngine) callType(fn *ssa.Function, args []ssa.Value, depth int) (u
 }
 
 func checkC08(c *Ctx) {
-	c.Explanation = "Decides the structure of the range, phase-range and rate formulas by a small type system over the SSA of the formula methods: every value carries (unit, binary exponent, decimal exponent, sign); field types come from the oracle (whole ms 2^0, fractional 2^-10, fine range 2^-24/2^-29, fine phase 2^-29/2^-31, rough rate m/s, fine rate 1e-4 m/s); shifts and multiplications by powers of two or ten move the exponents, + and | need identical types (| additionally disjoint bit ranges of plain shifted fields, so a carry or borrow cannot be lost), the light-millisecond constant turns plain ms into m, division by the wavelength turns m into cycles and m/s into Hz, *-1 flips the sign.  (R1) every exported formula method of MSM4 and MSM7 has its declared result type and the two families agree; (R2) each 'invalid' constant equals -2^(w-1) for the width w that the layout oracle gives its field (255 for the 8-bit rough range), a formula returns zero only under a rough-invalid (or missing satellite) test, and a fine-invalid test replaces the delta by 0; (R3) constants: OneLightMillisecond*1000 == SpeedOfLightMS == 299792458, TwoToThePowerN == 2^N; (R4) the four signal-frequency tables equal the oracle table over all ids 1..32, wavelength = c/f with a zero guard, and GetSignalWavelength dispatches the four constellation names. (R2, marker tests) every comparison of a field that has an invalid marker is an (in)equality with exactly that marker, so no valid value is treated as invalid; (R5) the cell, header and formula packages keep no package-level storage that is written outside initialisers, so the cells a formula reads belong to their own message; (R6) the shared scale helpers in utils have no branch that depends on an argument value, so no value is special-cased after normalisation. R4 also requires that GetSignalWavelength branches on the constellation only, never on the signal id."
+	c.Explanation = "Decides the structure of the range, phase-range and rate formulas by a small type system over the SSA of the formula methods: every value carries (unit, binary exponent, decimal exponent, sign); field types come from the oracle (whole ms 2^0, fractional 2^-10, fine range 2^-24/2^-29, fine phase 2^-29/2^-31, rough rate m/s, fine rate 1e-4 m/s); shifts and multiplications by powers of two or ten move the exponents, + and | need identical types (| additionally disjoint bit ranges of plain shifted fields, so a carry or borrow cannot be lost), the light-millisecond constant turns plain ms into m, division by the wavelength turns m into cycles and m/s into Hz, *-1 flips the sign.  (R1) every exported formula method of MSM4 and MSM7 has its declared result type and the two families agree; (R2) each 'invalid' constant equals -2^(w-1) for the width w that the layout oracle gives its field (255 for the 8-bit rough range), a formula returns zero only under a rough-invalid (or missing satellite) test, and a fine-invalid test replaces the delta by 0; (R3) constants: OneLightMillisecond*1000 == SpeedOfLightMS == 299792458, TwoToThePowerN == 2^N; (R4) the four signal-frequency tables equal the oracle table over all ids 1..32, wavelength = c/f with a zero guard, and GetSignalWavelength dispatches the four constellation names. (R2, marker tests) every comparison of a field that has an invalid marker is an (in)equality with exactly that marker, so no valid value is treated as invalid; (R5) the cell, header and formula packages keep no package-level storage that is written outside initialisers, so the cells a formula reads belong to their own message; (R6) the shared scale helpers in utils have no branch that depends on an argument value, so no value is special-cased after normalisation. R4 also requires that GetSignalWavelength branches on the constellation only, never on the signal id. R5 also refuses an in-place append to a truncated view of a decoded slice in the MSM packages (the signal cells point into the satellite list). (R7) all rules of C04: every cell is built from its own position of the field arrays and attached to its own satellite."
 	c.NotDecided = "floating-point rounding; wrap-around for negative totals (excluded by the property's precondition); whether the documented frequency table itself matches RTCM for every BeiDou band (taken as documented)."
 	P := c.P
 	or, err := loadUnitsOracle(c.Verifdir)
@@ -662,6 +662,20 @@ func checkC08(c *Ctx) {
 		}
 	}
 	c.MinInstances("C08-R6", 8)
+	// R5 (continued): the satellite cells that the signal cells point to are not rearranged once decoded —
+	// no function of the MSM packages appends in place to a truncated view of a slice it did not build
+	{
+		fns := map[*ssa.Function]bool{}
+		for _, pk := range []string{"rtcm/header", "rtcm/type_msm4/satellite", "rtcm/type_msm4/signal", "rtcm/type_msm4/message", "rtcm/type_msm7/satellite", "rtcm/type_msm7/signal", "rtcm/type_msm7/message"} {
+			for _, fn := range P.FuncsIn(pk) {
+				fns[fn] = true
+			}
+		}
+		ruleNoInPlaceAppend(c, "C08-R5", fns)
+	}
+	// R7: each cell's formulas are evaluated on that cell's own fields: the attachment rules of the
+	// decoders (one field counter, advanced for every set mask bit; satellite = &satCells[i]) — all of C04
+	c.Compose(checkC04, "C04", "C08-R7")
 	c.MinInstances("C08-R5", 1)
 	c.MinInstances("C08-R1", 13)
 	c.MinInstances("C08-R2", 12)
